@@ -17,6 +17,7 @@ import (
 	"verif/checks/common"
 	"verif/engine"
 	"verif/engine/dump"
+	"verif/engine/schedx"
 )
 
 // Exp is the expected meaning of a document, produced together with its text.
@@ -507,11 +508,6 @@ func structure(r *engine.Rec) {
 
 // ---- schedules ----
 
-type schedCase struct {
-	Doc     string `json:"document"`
-	Choices []int  `json:"schedule"`
-}
-
 func scheduleDocs() []string {
 	long := func(n int) string {
 		var it []string
@@ -531,11 +527,9 @@ func scheduleDocs() []string {
 	}
 }
 
-func schedules(r *engine.Rec) {
-	for _, doc := range scheduleDocs() {
-		doc := doc
+func scheduleUnit(doc string) func(r *engine.Rec) {
+	return func(r *engine.Rec) {
 		var first string
-		outcomes := map[string]bool{}
 		prog := func() ([]rt.ThreadSpec, func(*rt.Exec) []string) {
 			var val any
 			var out rt.Outcome
@@ -548,7 +542,6 @@ func schedules(r *engine.Rec) {
 				if !out.Panicked {
 					d = dump.Dump(val)
 				}
-				outcomes[d] = true
 				if first == "" {
 					first = d
 				}
@@ -556,7 +549,7 @@ func schedules(r *engine.Rec) {
 					what = append(what, "the result of ParseSource depends on the schedule\x00"+fmt.Sprintf("%q: %s vs %s", doc, d, first))
 				}
 				if len(ex.Stuck) > 0 {
-					what = append(what, "deadlock between scanner and parser\x00"+fmt.Sprint(ex.SortedStuck()))
+					what = append(what, "deadlock or leaked goroutine between scanner and parser\x00"+fmt.Sprint(ex.SortedStuck()))
 				}
 				for _, rc := range ex.Races {
 					what = append(what, common.RaceSig(rc)+"\x00"+rc.String())
@@ -569,42 +562,21 @@ func schedules(r *engine.Rec) {
 				return what
 			}
 		}
-		if r.ReplayCase != nil {
-			continue
-		}
-		warm, _ := prog()
-		rt.RunOnce(rt.Config{}, nil, warm)
-		first = ""
-		bound := 2
-		tokens := strings.Count(doc, ",") + 6
-		if tokens > 20 && r.Tier != "thorough" {
-			bound = 1
+		// scanner and parser operate on one queue: nearly all their operations are mutually dependent, so the
+		// sleep-set mode does not reduce anything; preemption bounding is the deciding mode here
+		long := strings.Count(doc, ",") > 8
+		o := schedx.Opts{Name: doc, Desc: doc, SigPrefix: "schedules: ", SkipA: true, Bounds: []int{1, 2}, CapB: 60000}
+		if long {
+			o.Bounds = []int{1}
 		}
 		if r.Tier == "thorough" {
-			bound = 3
-			if tokens > 20 {
-				bound = 2
+			o.Bounds, o.CapB = []int{1, 2, 3}, 1500000
+			if long {
+				o.Bounds = []int{1, 2}
 			}
 		}
-		st := rt.Explore(prog, rt.ExploreOpts{Bound: bound, Race: true, Elide: true, Deadline: r.Deadline})
-		r.Evals += int64(st.Executions)
-		r.States += int64(st.Points)
-		r.Add("schedules", int64(st.Executions))
-		r.Max("choice_points_per_execution", int64(st.MaxPoints))
-		for _, f := range st.Violations {
-			for _, w := range f.What {
-				parts := strings.SplitN(w, "\x00", 2)
-				r.Violation("schedules: "+parts[0], parts[1], schedCase{doc, f.Choices})
-			}
-		}
-		if !st.Complete {
-			r.Incomplete("schedule exploration budget")
-		}
-		r.Distinct += int64(len(outcomes))
-		r.Note(fmt.Sprintf("bound_completed[%q]", doc), bound)
-		r.Sample(map[string]any{"document": doc, "schedules": st.Executions, "preemption_bound": bound, "distinct_results": len(outcomes)})
+		schedx.Explore(r, prog, o)
 	}
-	r.Transitions += r.Evals
 }
 
 func init() {
@@ -615,7 +587,11 @@ func init() {
 		Assume:    []string{"Set items are same-type literals (the order of different dynamic types is the collator's business, C07)", "random derivations beyond the bound (sampling) are not generated"},
 		Budget:    func(string) time.Duration { return 5 * time.Minute },
 		Units: func(string) []engine.Unit {
-			return []engine.Unit{{Name: "literals", Run: literalPositions}, {Name: "structure", Run: structure}, {Name: "schedules", Run: schedules}}
+			us := []engine.Unit{{Name: "literals", Run: literalPositions}, {Name: "structure", Run: structure}}
+			for i, d := range scheduleDocs() {
+				us = append(us, engine.Unit{Name: fmt.Sprintf("schedules-%d", i), Run: scheduleUnit(d)})
+			}
+			return us
 		},
 	})
 }
